@@ -13,6 +13,8 @@ monotonicity on the domain is assumed (`Mono φ`).
 -/
 set_option linter.unusedSimpArgs false
 set_option linter.unusedVariables false
+set_option linter.unusedTactic false
+set_option linter.unreachableTactic false
 namespace Pun.B2B
 open Pun Pun.Arith Pun.Expr
 
@@ -758,5 +760,339 @@ example (box : Box) (p q : Rat × Rat) (hb : box = [p, q]) : CoordMono (fun x =>
   · intro s t xs _ hst _ _; cases xs <;> simp <;> linarith
   · intro s t xs _ hst _ _; simp; linarith
   · intro s t xs _ hst _ _; simp; linarith
+
+/-! ## inclusion isotonicity of direct evaluation -/
+
+/-- `u ⊆ u'` -/
+def Incl (u u' : Val) : Prop := u'.lo ≤ u.lo ∧ u.hi ≤ u'.hi
+def Valid (u : Val) : Prop := u.lo ≤ u.hi
+def _root_.Pun.Expr.Val.isNum : Val → Bool | .num _ => true | .ivl _ _ => false
+
+theorem mem_of_incl {u u' : Val} {x : Rat} (h : Incl u u') (hx : Mem x u) : Mem x u' :=
+  ⟨le_trans h.1 hx.1, le_trans hx.2 h.2⟩
+
+/-- a single operator application attains both ends of its result at operand values -/
+theorem binVal_attained (op : BinOp) (l r V : Val) (hl : Valid l) (hr : Valid r) (h : binVal op l r = .ok V) :
+    (∃ x y, Mem x l ∧ Mem y r ∧ binPt op x y = .ok V.lo) ∧ (∃ x y, Mem x l ∧ Mem y r ∧ binPt op x y = .ok V.hi) := by
+  cases l with
+  | num p =>
+    cases r with
+    | num s =>
+      have hm : Mem p (.num p) := ⟨le_refl _, le_refl _⟩
+      have hs : Mem s (.num s) := ⟨le_refl _, le_refl _⟩
+      simp only [binVal] at h
+      cases hb : binPt op p s with
+      | error e => rw [hb] at h; cases h
+      | ok z => rw [hb] at h; cases h; exact ⟨⟨p, s, hm, hs, hb⟩, ⟨p, s, hm, hs, hb⟩⟩
+    | ivl c d =>
+      have hcd : c ≤ d := hr
+      have hm : Mem p (.num p) := ⟨le_refl _, le_refl _⟩
+      have mc : Mem c (.ivl c d) := ⟨le_refl _, hcd⟩
+      have md : Mem d (.ivl c d) := ⟨hcd, le_refl _⟩
+      cases op <;> simp only [binVal] at h
+      · obtain ⟨rfl, _⟩ := mk_ok h
+        exact ⟨⟨p, c, hm, mc, by simp [binPt, Val.lo, add_comm]⟩, ⟨p, d, hm, md, by simp [binPt, Val.hi, add_comm]⟩⟩
+      · obtain ⟨rfl, _⟩ := mk_ok h
+        exact ⟨⟨p, d, hm, md, rfl⟩, ⟨p, c, hm, mc, rfl⟩⟩
+      · split at h
+        · obtain ⟨rfl, _⟩ := mk_ok h
+          exact ⟨⟨p, c, hm, mc, by simp [binPt, Val.lo, mul_comm]⟩, ⟨p, d, hm, md, by simp [binPt, Val.hi, mul_comm]⟩⟩
+        · obtain ⟨rfl, _⟩ := mk_ok h
+          exact ⟨⟨p, d, hm, md, by simp [binPt, Val.lo, mul_comm]⟩, ⟨p, c, hm, mc, by simp [binPt, Val.hi, mul_comm]⟩⟩
+      · split at h
+        · cases h
+        · rename_i hz
+          have hc0 : c ≠ 0 := by
+            intro hc; subst hc; exact hz ⟨le_refl _, hcd⟩
+          have hd0 : d ≠ 0 := by
+            intro hd; subst hd; exact hz ⟨hcd, le_refl _⟩
+          split at h
+          · obtain ⟨rfl, _⟩ := mk_ok h
+            exact ⟨⟨p, d, hm, md, by simp [binPt, Val.lo, hd0]⟩, ⟨p, c, hm, mc, by simp [binPt, Val.hi, hc0]⟩⟩
+          · obtain ⟨rfl, _⟩ := mk_ok h
+            exact ⟨⟨p, c, hm, mc, by simp [binPt, Val.lo, hc0]⟩, ⟨p, d, hm, md, by simp [binPt, Val.hi, hd0]⟩⟩
+  | ivl a b =>
+    have hab : a ≤ b := hl
+    have ma : Mem a (.ivl a b) := ⟨le_refl _, hab⟩
+    have mb : Mem b (.ivl a b) := ⟨hab, le_refl _⟩
+    cases r with
+    | num s =>
+      have hs : Mem s (.num s) := ⟨le_refl _, le_refl _⟩
+      cases op <;> simp only [binVal] at h
+      · obtain ⟨rfl, _⟩ := mk_ok h; exact ⟨⟨a, s, ma, hs, rfl⟩, ⟨b, s, mb, hs, rfl⟩⟩
+      · obtain ⟨rfl, _⟩ := mk_ok h; exact ⟨⟨a, s, ma, hs, rfl⟩, ⟨b, s, mb, hs, rfl⟩⟩
+      · split at h
+        · obtain ⟨rfl, _⟩ := mk_ok h; exact ⟨⟨a, s, ma, hs, rfl⟩, ⟨b, s, mb, hs, rfl⟩⟩
+        · obtain ⟨rfl, _⟩ := mk_ok h; exact ⟨⟨b, s, mb, hs, rfl⟩, ⟨a, s, ma, hs, rfl⟩⟩
+      · split at h
+        · cases h
+        · rename_i hs0
+          split at h
+          · obtain ⟨rfl, _⟩ := mk_ok h
+            exact ⟨⟨a, s, ma, hs, by simp [binPt, Val.lo, hs0]⟩, ⟨b, s, mb, hs, by simp [binPt, Val.hi, hs0]⟩⟩
+          · obtain ⟨rfl, _⟩ := mk_ok h
+            exact ⟨⟨b, s, mb, hs, by simp [binPt, Val.lo, hs0]⟩, ⟨a, s, ma, hs, by simp [binPt, Val.hi, hs0]⟩⟩
+    | ivl c d =>
+      have hcd : c ≤ d := hr
+      have mc : Mem c (.ivl c d) := ⟨le_refl _, hcd⟩
+      have md : Mem d (.ivl c d) := ⟨hcd, le_refl _⟩
+      cases op <;> simp only [binVal] at h
+      · obtain ⟨rfl, _⟩ := mk_ok h; exact ⟨⟨a, c, ma, mc, rfl⟩, ⟨b, d, mb, md, rfl⟩⟩
+      · obtain ⟨rfl, _⟩ := mk_ok h; exact ⟨⟨a, d, ma, md, rfl⟩, ⟨b, c, mb, mc, rfl⟩⟩
+      · obtain ⟨l, hh, ht, _, ⟨x1, y1, p1, p2, p3, p4, e1⟩, ⟨x2, y2, q1, q2, q3, q4, e2⟩⟩ := mul_exact_image a b c d hab hcd
+        rw [ht] at h
+        obtain ⟨rfl, _⟩ := mk_ok h
+        exact ⟨⟨x1, y1, ⟨p1, p2⟩, ⟨p3, p4⟩, by simp [binPt, Val.lo, e1]⟩, ⟨x2, y2, ⟨q1, q2⟩, ⟨q3, q4⟩, by simp [binPt, Val.hi, e2]⟩⟩
+      · have h0 : 0 < c ∨ d < 0 := by
+          by_contra hc
+          rw [not_or, not_lt, not_lt] at hc
+          rw [div_straddle_raises a b c d ⟨hc.1, hc.2⟩] at h
+          cases h
+        obtain ⟨l, hh, ht, _, ⟨x1, y1, p1, p2, p3, p4, e1⟩, ⟨x2, y2, q1, q2, q3, q4, e2⟩⟩ := divTable_sound a b c d hab hcd h0
+        rw [ht] at h
+        obtain ⟨rfl, _⟩ := mk_ok h
+        have ny : ∀ y, c ≤ y → y ≤ d → y ≠ 0 := by
+          intro y h1 h2
+          rcases h0 with h0 | h0
+          · exact ne_of_gt (lt_of_lt_of_le h0 h1)
+          · exact ne_of_lt (lt_of_le_of_lt h2 h0)
+        exact ⟨⟨x1, y1, ⟨p1, p2⟩, ⟨p3, p4⟩, by simp [binPt, Val.lo, e1, ny y1 p3 p4]⟩,
+               ⟨x2, y2, ⟨q1, q2⟩, ⟨q3, q4⟩, by simp [binPt, Val.hi, e2, ny y2 q3 q4]⟩⟩
+
+theorem valid_lo {u : Val} (h : Valid u) : Mem u.lo u := ⟨le_refl _, h⟩
+
+/-- one operator application is inclusion isotone (and its result is a valid interval) -/
+theorem binVal_incl (op : BinOp) (l r l' r' V V' : Val) (hl : Valid l) (hr : Valid r) (il : Incl l l') (ir : Incl r r')
+    (h : binVal op l r = .ok V) (h' : binVal op l' r' = .ok V') : Incl V V' ∧ Valid V := by
+  obtain ⟨⟨x1, y1, a1, b1, e1⟩, ⟨x2, y2, a2, b2, e2⟩⟩ := binVal_attained op l r V hl hr h
+  obtain ⟨z1, hz1, m1⟩ := binVal_sound op l' r' V' x1 y1 (mem_of_incl il a1) (mem_of_incl ir b1) h'
+  obtain ⟨z2, hz2, m2⟩ := binVal_sound op l' r' V' x2 y2 (mem_of_incl il a2) (mem_of_incl ir b2) h'
+  obtain ⟨z3, hz3, m3⟩ := binVal_sound op l r V x1 y1 a1 b1 h
+  rw [e1] at hz1 hz3; rw [e2] at hz2
+  cases hz1; cases hz2; cases hz3
+  exact ⟨⟨m1.1, m2.2⟩, m3.2⟩
+
+theorem powVal_incl (v v' V V' : Val) (k : Nat) (hv : Valid v) (iv : Incl v v')
+    (hk : v.isNum = v'.isNum)
+    (h : powVal v k = .ok V) (h' : powVal v' k = .ok V') : Incl V V' ∧ Valid V := by
+  have hval : Valid V := by
+    have := powVal_sound v V k v.lo (valid_lo hv) h
+    exact le_trans this.1 this.2
+  refine ⟨?_, hval⟩
+  cases v with
+  | num c =>
+    cases v' with
+    | ivl _ _ => simp [Val.isNum] at hk
+    | num c' =>
+      have : c = c' := le_antisymm (le_trans (le_refl _) iv.2) iv.1
+      subst this
+      rw [h] at h'; cases h'; exact ⟨le_refl _, le_refl _⟩
+  | ivl a b =>
+    cases v' with
+    | num c' => simp [Val.isNum] at hk
+    | ivl a' b' =>
+      obtain ⟨ia, ib⟩ := iv
+      simp only [Val.lo, Val.hi] at ia ib
+      have hab : a ≤ b := hv
+      -- ends of V are values x^k at points of [a,b] unless k = 0
+      have ma : Mem a (.ivl a' b') := ⟨ia, le_trans hab ib⟩
+      have mb : Mem b (.ivl a' b') := ⟨le_trans ia hab, ib⟩
+      have sa := powVal_sound _ V' k a ma h'
+      have sb := powVal_sound _ V' k b mb h'
+      simp only [powVal] at h
+      split at h
+      · rename_i hev
+        obtain ⟨rfl, _⟩ := mk_ok h
+        show V'.lo ≤ (if a > 0 then a ^ k else if b < 0 then b ^ k else 0) ∧ max (a ^ k) (b ^ k) ≤ V'.hi
+        refine ⟨?_, max_le sa.2 sb.2⟩
+        by_cases ha : a > 0
+        · rw [if_pos ha]; exact sa.1
+        · rw [if_neg ha]
+          by_cases hb : b < 0
+          · rw [if_pos hb]; exact sb.1
+          · rw [if_neg hb]
+            rcases Nat.eq_zero_or_pos k with hk0 | hk0
+            · subst hk0
+              simp only [powVal, Nat.zero_mod, if_true, pow_zero] at h'
+              obtain ⟨rfl, _⟩ := mk_ok h'
+              have na' : ¬ a' > 0 := fun hh => ha (lt_of_lt_of_le hh ia)
+              have nb' : ¬ b' < 0 := fun hh => hb (lt_of_le_of_lt ib hh)
+              simp [Val.lo, na', nb']
+            · have m0 : Mem 0 (.ivl a' b') := ⟨le_trans ia (not_lt.mp ha), le_trans (not_lt.mp hb) ib⟩
+              have s0 := powVal_sound _ V' k 0 m0 h'
+              rw [zero_pow (by omega)] at s0
+              exact s0.1
+      · obtain ⟨rfl, _⟩ := mk_ok h
+        show V'.lo ≤ min (a ^ k) (b ^ k) ∧ max (a ^ k) (b ^ k) ≤ V'.hi
+        exact ⟨le_min sa.1 sb.1, max_le sa.2 sb.2⟩
+
+theorem unVal_incl (φ : UFun → Rat → Rat) (hφ : Mono φ) (f : UFun) (v v' V V' : Val) (hv : Valid v) (iv : Incl v v')
+    (hk : v.isNum = v'.isNum)
+    (h : unVal φ f v = .ok V) (h' : unVal φ f v' = .ok V') : Incl V V' ∧ Valid V := by
+  cases v with
+  | num c =>
+    cases v' with
+    | ivl _ _ => simp [Val.isNum] at hk
+    | num c' =>
+    have : c = c' := le_antisymm (le_trans (le_refl _) iv.2) iv.1
+    subst this
+    rw [h] at h'; cases h'
+    have := unVal_sound φ hφ f (.num c) V c ⟨le_refl _, le_refl _⟩ h
+    obtain ⟨z, _, mz⟩ := this
+    exact ⟨⟨le_refl _, le_refl _⟩, le_trans mz.1 mz.2⟩
+  | ivl a b =>
+    obtain ⟨ia, ib⟩ := iv
+    have hab : a ≤ b := hv
+    have ma : Mem a v' := ⟨ia, le_trans hab ib⟩
+    have mb : Mem b v' := ⟨le_trans ia hab, ib⟩
+    obtain ⟨za, hza, sa⟩ := unVal_sound φ hφ f v' V' a ma h'
+    obtain ⟨zb, hzb, sb⟩ := unVal_sound φ hφ f v' V' b mb h'
+    simp only [unVal] at h
+    split at h
+    · rename_i hd
+      obtain ⟨rfl, hle⟩ := mk_ok h
+      simp only [unPt, if_pos hd.1] at hza
+      simp only [unPt, if_pos hd.2] at hzb
+      cases hza; cases hzb
+      exact ⟨⟨sa.1, sb.2⟩, hle⟩
+    · cases h
+
+theorem getElem_sub {t box : Box} (hs : SubBox t box) (i : Nat) (q p : Rat × Rat) (hq : t[i]? = some q) (hp : box[i]? = some p) :
+    p.1 ≤ q.1 ∧ q.1 ≤ q.2 ∧ q.2 ≤ p.2 := by
+  induction hs generalizing i with
+  | nil => simp at hq
+  | cons hab _ ih =>
+    cases i with
+    | zero => simp at hq hp; subst hq; subst hp; exact hab
+    | succ j => simp at hq hp; exact ih j hq hp
+
+
+theorem mk_kind {l h : Rat} {V : Val} (hm : mk l h = .ok V) : V.isNum = false := by
+  obtain ⟨rfl, _⟩ := mk_ok hm; rfl
+
+theorem binVal_kind (op : BinOp) (l r V : Val) (h : binVal op l r = .ok V) : V.isNum = (l.isNum && r.isNum) := by
+  cases l <;> cases r <;> cases op <;> simp only [binVal] at h <;> simp only [Val.isNum, Bool.and_true, Bool.and_false, Bool.false_and] <;>
+    first
+    | (cases hb : binPt _ _ _ <;> rw [hb] at h <;> cases h <;> rfl)
+    | exact mk_kind h
+    | (split at h <;> first | exact mk_kind h | cases h | (split at h <;> first | exact mk_kind h | cases h))
+
+theorem powVal_kind (v V : Val) (k : Nat) (h : powVal v k = .ok V) : V.isNum = v.isNum := by
+  cases v <;> simp only [powVal] at h
+  · cases h; rfl
+  · split at h <;> exact mk_kind h
+
+theorem unVal_kind (φ : UFun → Rat → Rat) (f : UFun) (v V : Val) (h : unVal φ f v = .ok V) : V.isNum = v.isNum := by
+  cases v <;> simp only [unVal] at h
+  · cases hb : unPt φ f _ <;> rw [hb] at h <;> cases h; rfl
+  · split at h
+    · exact mk_kind h
+    · cases h
+
+/-- ★ inclusion isotonicity of direct evaluation (proved for the case that both evaluations return a value):
+a sub-box gives a contained result.  Any dimension, any depth, repeated variables. -/
+theorem direct_isotone_partial (φ : UFun → Rat → Rat) (hφ : Mono φ) (e : Expr) (t box : Box) (hs : SubBox t box)
+    (V V' : Val) (h : evalIvl φ t e = .ok V) (h' : evalIvl φ box e = .ok V') :
+    Incl V V' ∧ Valid V ∧ V.isNum = V'.isNum := by
+  induction e generalizing V V' with
+  | var i =>
+    simp only [evalIvl] at h h'
+    split at h
+    · rename_i q hq
+      split at h'
+      · rename_i p hp
+        cases h; cases h'
+        obtain ⟨h1, h2, h3⟩ := getElem_sub hs i q p hq hp
+        exact ⟨⟨h1, h3⟩, h2, rfl⟩
+      · cases h'
+    · cases h
+  | const c => simp only [evalIvl] at h h'; cases h; cases h'; exact ⟨⟨le_refl _, le_refl _⟩, le_refl _, rfl⟩
+  | add a b iha ihb | sub a b iha ihb | mul a b iha ihb | div a b iha ihb =>
+    simp only [evalIvl, bind, Except.bind] at h h'
+    split at h
+    · cases h
+    · rename_i u hu
+      split at h
+      · cases h
+      · rename_i v hv
+        split at h'
+        · cases h'
+        · rename_i u' hu'
+          split at h'
+          · cases h'
+          · rename_i v' hv'
+            obtain ⟨i1, v1, k1⟩ := iha u u' hu hu'
+            obtain ⟨i2, v2, k2⟩ := ihb v v' hv hv'
+            obtain ⟨r1, r2⟩ := binVal_incl _ u v u' v' V V' v1 v2 i1 i2 h h'
+            exact ⟨r1, r2, by rw [binVal_kind _ _ _ _ h, binVal_kind _ _ _ _ h', k1, k2]⟩
+  | pow a k iha =>
+    simp only [evalIvl, bind, Except.bind] at h h'
+    split at h
+    · cases h
+    · rename_i u hu
+      split at h'
+      · cases h'
+      · rename_i u' hu'
+        obtain ⟨i1, v1, k1⟩ := iha u u' hu hu'
+        obtain ⟨r1, r2⟩ := powVal_incl u u' V V' k v1 i1 k1 h h'
+        exact ⟨r1, r2, by rw [powVal_kind _ _ _ h, powVal_kind _ _ _ h', k1]⟩
+  | un f a iha =>
+    simp only [evalIvl, bind, Except.bind] at h h'
+    split at h
+    · cases h
+    · rename_i u hu
+      split at h'
+      · cases h'
+      · rename_i u' hu'
+        obtain ⟨i1, v1, k1⟩ := iha u u' hu hu'
+        obtain ⟨r1, r2⟩ := unVal_incl φ hφ f u u' V V' v1 i1 k1 h h'
+        exact ⟨r1, r2, by rw [unVal_kind _ _ _ _ h, unVal_kind _ _ _ _ h', k1]⟩
+
+/-- the full isotonicity statement also asserts that evaluation over the sub-box succeeds -/
+def DirectIsotoneStatement : Prop :=
+  ∀ (φ : UFun → Rat → Rat), Mono φ → ∀ (e : Expr) (t box : Box), SubBox t box → ∀ V', evalIvl φ box e = .ok V' →
+    ∃ V, evalIvl φ t e = .ok V ∧ Incl V V'
+
+/-- ★ subinterval reconstitution with direct evaluation is contained in the un-subdivided direct result -/
+theorem subdirect_within_direct (φ : UFun → Rat → Rat) (hφ : Mono φ) (e : Expr) (box : Box) (hv : ValidBox box) (n : Nat)
+    (V D : Val) (h : subinterval φ e box (some .direct) (some n) = .ok V) (hD : direct φ e box = .ok D) :
+    D.lo ≤ V.lo ∧ V.hi ≤ D.hi := by
+  simp only [subinterval, bind, Except.bind] at h
+  split at h
+  · cases h
+  · rename_i rs hrs
+    have hall := mapM_ok _ _ _ hrs
+    obtain ⟨_, ⟨r1, hr1, e1⟩, ⟨r2, hr2, e2⟩⟩ := reconstitute_spec h
+    obtain ⟨t1, ht1, het1⟩ := forall₂_right hall r1 hr1
+    obtain ⟨t2, ht2, het2⟩ := forall₂_right hall r2 hr2
+    obtain ⟨i1, _, _⟩ := direct_isotone_partial φ hφ e t1 box (tiles_within box n hv t1 ht1) r1 D het1 hD
+    obtain ⟨i2, _, _⟩ := direct_isotone_partial φ hφ e t2 box (tiles_within box n hv t2 ht2) r2 D het2 hD
+    exact ⟨by rw [← e1]; exact i1.1, by rw [← e2]; exact i2.2⟩
+
+example : subinterval (fun _ x => x) (.sub (.mul (.var 0) (.var 1)) (.var 0)) [(-1, 2), (3, 5)] (some .direct) (some 2)
+    = .ok (.ivl (-11/2) (19/2)) := by decide +kernel
+
+/-! ## tiles do not overlap -/
+
+/-- ★ (one side, proved) along one side the tiles are ordered and meet only at knots: tile `i` ends
+no later than tile `j` starts, for `i < j` -/
+theorem tiles1_disjoint_partial (p : Rat × Rat) (n : Nat) (hp : p.1 ≤ p.2) (i j : Nat) (hij : i < j) (hj : j < n) :
+    ∃ s t, (tiles1 p n)[i]? = some s ∧ (tiles1 p n)[j]? = some t ∧ s.2 ≤ t.1 := by
+  have hn : ¬ n ≤ 1 := by omega
+  refine ⟨(knot p.1 p.2 n i, knot p.1 p.2 n (i + 1)), (knot p.1 p.2 n j, knot p.1 p.2 n (j + 1)), ?_, ?_, ?_⟩
+  · simp [tiles1, hn, List.getElem?_map, List.getElem?_range (by omega : i < n)]
+  · simp [tiles1, hn, List.getElem?_map, List.getElem?_range hj]
+  · exact knot_mono _ _ _ hp _ _ (by omega)
+
+/-- the full non-overlap statement in dimension `d`: two tiles at different positions of the tiling are
+separated along some coordinate (their interiors are disjoint).  Proved above for one side; the
+`d`-dimensional step (two distinct index tuples differ in a coordinate) is checked by the harness on the
+tiles captured from the real code, not proved. -/
+def TilesInteriorDisjointStatement : Prop :=
+  ∀ (box : Box) (n : Nat), ValidBox box → ∀ (i j : Nat), i < j → ∀ (s t : Box), (tiles box n)[i]? = some s → (tiles box n)[j]? = some t →
+    ∃ (k : Nat) (q q' : Rat × Rat), s[k]? = some q ∧ t[k]? = some q' ∧ (q.2 ≤ q'.1 ∨ q'.2 ≤ q.1)
+
+example : ∃ s t, (tiles1 (0, 3) 3)[0]? = some s ∧ (tiles1 (0, 3) 3)[2]? = some t ∧ s.2 ≤ t.1 :=
+  tiles1_disjoint_partial (0, 3) 3 (by norm_num) 0 2 (by omega) (by omega)
 
 end Pun.B2B
